@@ -417,6 +417,10 @@ fn run_case(case: &Case) -> Res {
     // generous upper bound of the signed weight: every input with a 73-byte signature, a key and slack
     let w_up = tx.weight().to_wu() as u128 + 2 + n_in * (1 + 1 + 73 + 1 + 33 + 8);
     let unknown_idx: Vec<usize> = refs.iter().enumerate().filter(|(_, x)| **x == RefOut::Unknown).map(|(i, _)| i).collect();
+    // outputs presented with a path that matches nothing may be refused outright (as the code
+    // does) or reported as unknown as well: both satisfy the statement
+    let mismatch_idx: Vec<usize> = refs.iter().enumerate().filter(|(_, x)| **x == RefOut::Mismatch).map(|(i, _)| i).collect();
+    let report_ok = |got: &Vec<usize>| -> bool { unknown_idx.iter().all(|i| got.contains(i)) && got.iter().all(|i| unknown_idx.contains(i) || mismatch_idx.contains(i)) };
     let fee_ref = |prior_fees_in_window: u128| -> Result<(), String> {
         if version != 2 {
             return Err("non-standard-version".into());
@@ -511,7 +515,7 @@ fn run_case(case: &Case) -> Res {
                     r.class = "unknown-destinations".into();
                     let mut got = idx.clone();
                     got.sort();
-                    if got != unknown_idx {
+                    if !report_ok(&got) {
                         r.vio = Some(("C08:check_onchain_tx:unknown-destinations-misreported".into(), format!("{:?}: reported unknown outputs {:?}, the outputs that are neither wallet, allowlisted nor a node-funded channel are {:?}", case, got, unknown_idx)));
                         return r;
                     }
@@ -552,7 +556,7 @@ fn run_case(case: &Case) -> Res {
                         let mut got = consulted.first().cloned().unwrap_or_default();
                         got.sort();
                         let other = approved_ref();
-                        if consulted.len() != 1 || got != unknown_idx {
+                        if consulted.len() != 1 || !report_ok(&got) {
                             r.vio = Some(("C08:approver:consulted-with-wrong-outputs".into(), format!("{:?}: approve_onchain consulted with {:?}, unknown outputs are {:?}", case, consulted, unknown_idx)));
                             return r;
                         }
@@ -575,7 +579,7 @@ fn run_case(case: &Case) -> Res {
                     r.class = "declined-by-approver".into();
                     let mut got = consulted.first().cloned().unwrap_or_default();
                     got.sort();
-                    if consulted.len() != 1 || got != unknown_idx {
+                    if consulted.len() != 1 || !report_ok(&got) {
                         r.vio = Some(("C08:approver:consulted-with-wrong-outputs".into(), format!("{:?}: approve_onchain consulted with {:?}, unknown outputs are {:?}", case, consulted, unknown_idx)));
                         return r;
                     }
